@@ -7,6 +7,7 @@ import (
 	"time"
 
 	authorizationv1 "k8s.io/api/authorization/v1"
+	apierrors "k8s.io/apimachinery/pkg/api/errors"
 	"k8s.io/apiserver/pkg/authentication/authenticator"
 	"k8s.io/apiserver/pkg/authentication/user"
 	"k8s.io/apiserver/pkg/authorization/authorizer"
@@ -23,6 +24,11 @@ type gateSet struct {
 	release chan struct{}
 	arrived chan string // cluster names, one per held review
 	r       *vkit.R
+
+	fKind, fKey string
+	fErr        error
+	fHit        chan string
+	fProceed    chan struct{}
 }
 
 func newGateSet() *gateSet { return &gateSet{} }
@@ -62,6 +68,134 @@ func (g *gateSet) hold(kind, key, cluster string) {
 			g.r.Count("gate_watchdog_expired", 1)
 		}
 	}
+}
+
+// fault: the next review for (kind, key) fails once with a retriable API error. The reactor is the synchronisation point:
+// it tells the harness that the failing attempt is being answered and returns the error only after the harness has
+// done what it wants to do "during the back-off" (move the host to another cluster).
+func (g *gateSet) armFault(kind, key string, err error) (hit chan string, proceed chan struct{}) {
+	g.mu.Lock()
+	defer g.mu.Unlock()
+	g.fKind, g.fKey, g.fErr = kind, key, err
+	g.fHit = make(chan string, 1)
+	g.fProceed = make(chan struct{})
+	return g.fHit, g.fProceed
+}
+
+func (g *gateSet) fault(kind, key, cluster string) error {
+	g.mu.Lock()
+	if g.fErr == nil || g.fKind != kind || g.fKey != key {
+		g.mu.Unlock()
+		return nil
+	}
+	err, hit, proceed := g.fErr, g.fHit, g.fProceed
+	g.fErr = nil // once
+	g.mu.Unlock()
+	hit <- cluster
+	select {
+	case <-proceed:
+	case <-time.After(20 * time.Second):
+		if g.r != nil {
+			g.r.Count("gate_watchdog_expired", 1)
+		}
+	}
+	return err
+}
+
+// retryCase: host x (an alias of cluster A) is asked with fresh credentials; A's first review fails with a retriable
+// error; while that attempt is being answered the alias moves to cluster B; the retry follows after the back-off.
+// The request was addressed to A (the cluster its host resolved to when it arrived): every review it causes must be
+// received by A, and a positive decision must be A's. A denial or an error is always acceptable.
+func (s *scenario) retryCase() {
+	g, r := s.g, s.r
+	s.gates.r = r
+	var x string
+	var a, b *scluster
+	s.p.mu.RLock()
+	for _, i := range g.Perm(len(aliasPool)) {
+		if c := s.p.hosts[aliasPool[i]]; c != nil && c.ready {
+			x, a = aliasPool[i], c
+			break
+		}
+	}
+	s.p.mu.RUnlock()
+	if a == nil {
+		return
+	}
+	for _, c := range s.liveClusters() {
+		if c != a && c.ready {
+			b = c
+		}
+	}
+	if b == nil {
+		return
+	}
+	s.caseN++
+	userName, ai := fmt.Sprintf("dave-%d", s.caseN), g.Intn(len(attrSpecs))
+	if g.Bool() {
+		ai = 2 + g.Intn(2) // the impersonate tuples
+	}
+	var ferr error
+	if g.Bool() {
+		ferr = apierrors.NewInternalError(fmt.Errorf("transient failure"))
+	} else {
+		ferr = apierrors.NewTooManyRequests("slow down", 0)
+	}
+	hit, proceed := s.gates.armFault("sar", sarKeyFor(userName, ai), ferr)
+	s.ops = append(s.ops, op{Kind: "retry-begin", Host: x, Owner: a.name, Attr: fmt.Sprintf("first review of %s / %s at %s fails with %q; the alias moves to %s before the error is returned", userName, attrSpecs[ai].name, a.name, ferr.Error(), b.name)})
+	m := s.log.mark()
+	done := make(chan outcome, 1)
+	go func() { done <- s.rawAuthz(x, userName, ai) }()
+	var out outcome
+	moved := false
+	select {
+	case <-hit:
+		s.setOwner(x, b)
+		moved = true
+		s.ops = append(s.ops, op{Kind: "move", Host: x, Cluster: b.name, Owner: a.name})
+		close(proceed)
+		select {
+		case out = <-done:
+		case <-time.After(30 * time.Second):
+			r.Inconclusive("a retried authorization did not return within the 30s watchdog")
+			s.panicked = true
+			return
+		}
+	case out = <-done:
+		close(proceed)
+	case <-time.After(20 * time.Second):
+		r.Inconclusive("the request of a retry case neither reached its stub nor returned within the 20s watchdog")
+		s.panicked = true
+		return
+	}
+	s.ops = append(s.ops, out.o)
+	r.Count("authz_requests", 1)
+	if !moved {
+		r.Count("retry_cases_without_review", 1)
+		return
+	}
+	reviews := s.log.since(m)
+	if len(reviews) >= 2 {
+		r.Count("retry_cases", 1)
+		if strings.HasPrefix(attrSpecs[ai].name, "impersonate") {
+			r.Count("retry_cases_impersonation", 1)
+		}
+	} else {
+		r.Count("retry_cases_not_retried", 1)
+	}
+	wit := s.witness(map[string]interface{}{"request_resolved_to": a.name, "host_moved_to": b.name})
+	for _, rv := range reviews {
+		if rv.Cluster != a.name {
+			r.Violation("C12/authz/review-sent-to-other-cluster/retry-after-host-moved",
+				fmt.Sprintf("request to host %q resolved to cluster %q; its first review failed with a retriable error, the host moved to %q, and the retried review was sent to cluster %q", x, a.name, b.name, rv.Cluster), wit)
+			break
+		}
+	}
+	if out.positive && out.prov != a.name {
+		r.Violation("C12/authz/answer-of-other-cluster/retry-after-host-moved",
+			fmt.Sprintf("request to host %q resolved to cluster %q was allowed by the answer of %q after a retry (%s)", x, a.name, orNone(out.prov), out.o.Result), wit)
+	}
+	s.ops = append(s.ops, op{Kind: "retry-end"})
 }
 
 type outcome struct {
